@@ -30,7 +30,13 @@ func (area) Name() string { return "master" }
 type memRepo struct {
 	state.Repository
 	kv map[string][]byte
+	// asgPuts counts successful Puts per key (a Put is what makes etcd emit a watch event)
+	asgPuts map[string]int
+	// failAsgPut > 0: the failAsgPut-th next Put on a shard-assignment key fails once
+	failAsgPut int
 }
+
+var errInjectedPut = fmt.Errorf("verif: injected repository write failure")
 
 func (r *memRepo) Get(_ context.Context, key string) ([]byte, error) {
 	v, ok := r.kv[key]
@@ -54,7 +60,16 @@ func (r *memRepo) List(_ context.Context, prefix string) ([]state.KeyValue, erro
 	return out, nil
 }
 func (r *memRepo) Put(_ context.Context, key string, val []byte) error {
+	if r.failAsgPut > 0 && strings.HasPrefix(key, constants.ShardAssignmentPath+"/") {
+		r.failAsgPut--
+		if r.failAsgPut == 0 {
+			return errInjectedPut
+		}
+	}
 	r.kv[key] = append([]byte(nil), val...)
+	if r.asgPuts != nil {
+		r.asgPuts[key]++
+	}
 	return nil
 }
 func (r *memRepo) Delete(_ context.Context, key string) error { delete(r.kv, key); return nil }
@@ -164,9 +179,13 @@ func (area) Run(c *core.Ctx) error {
 		}
 		r := c.Rng(i)
 		c.Begin(i)
-		if i%2 == 0 {
+		switch {
+		case i < len(scripts):
+			c.Branch("scripted")
+			machineRun(c, r, scripts[i])
+		case i%2 == 0:
 			pureCase(c, r)
-		} else {
+		default:
 			machineCase(c, r)
 		}
 	}
@@ -177,14 +196,26 @@ func (area) Run(c *core.Ctx) error {
 // and with the random start (oracle only).
 func pureCase(c *core.Ctx, r *rand.Rand) {
 	n := 1 + r.Intn(12)
+	maxShards := 40
+	if c.Tier == "thorough" && r.Intn(3) == 0 { // larger clusters, many wrap-arounds of the shift
+		n = 1 + r.Intn(40)
+		maxShards = 250
+	}
 	nodes := distinctNodes(r, n)
-	numShards := r.Intn(45) - 2
-	rf := r.Intn(n+3) - 1
-	if r.Intn(4) != 0 { // mostly valid
-		if numShards <= 0 {
-			numShards = 1 + r.Intn(40)
+	numShards := 1 + r.Intn(maxShards)
+	rf := 1 + r.Intn(n)
+	if r.Intn(4) == 0 { // a quarter malformed: one of the three rejected shapes (or a mix)
+		switch r.Intn(4) {
+		case 0:
+			numShards = -r.Intn(3)
+		case 1:
+			rf = -r.Intn(3)
+		case 2:
+			rf = n + 1 + r.Intn(3)
+		default:
+			numShards = r.Intn(5) - 2
+			rf = r.Intn(n+3) - 1
 		}
-		rf = 1 + r.Intn(n)
 	}
 	start := r.Intn(n + 3)
 	startShard := 0
@@ -258,6 +289,12 @@ type machine struct {
 	mgr  master.StateManager
 	live map[int]bool
 	dbs  map[int]*models.Database
+	// the shard-assignment watch: payloads persisted but not yet delivered (FIFO per database), the
+	// last payload delivered per database (for duplicates), and the assignment the manager has been
+	// told about and that was not dropped since (what "its replicas" means for a reported shard)
+	pending   map[int][][]byte
+	lastRaw   map[int][]byte
+	delivered map[int]*models.ShardAssignment
 }
 
 func dbName(d int) string { return "db" + strconv.Itoa(d) }
@@ -309,16 +346,33 @@ func (m *machine) dump() string {
 // oracle: the C18 statement on the implementation's state.
 func (m *machine) oracle(c *core.Ctx, after string) {
 	st := m.mgr.GetStorageState()
+	// "alive" is what the start-up / failure events say (m.live); LiveNodes must agree with it
+	for id := range st.LiveNodes {
+		if !m.live[int(id)] {
+			c.Fail("live-nodes-not-event-history", fmt.Sprintf("after %q: node %d is in LiveNodes but its last event was a failure (or none)", after, id))
+		}
+	}
+	for id := range m.live {
+		if _, ok := st.LiveNodes[models.NodeID(id)]; !ok {
+			c.Fail("live-nodes-not-event-history", fmt.Sprintf("after %q: node %d started but is not in LiveNodes", after, id))
+		}
+	}
 	for name, ss := range st.ShardStates {
-		asg := st.ShardAssignments[name]
+		// "its replicas": the assignment the manager was told about by the last delivered
+		// ShardAssignmentChanged event of this database (not the object the manager publishes,
+		// which a handler could have modified in place)
+		d, _ := strconv.Atoi(strings.TrimPrefix(name, "db"))
+		asg := m.delivered[d]
 		for id, s := range ss {
 			var replicas []models.NodeID
 			if asg != nil && asg.Shards[id] != nil {
 				replicas = asg.Shards[id].Replicas
+			} else {
+				c.Branch("oracle-reported-shard-without-assignment")
 			}
 			alive := false
 			for _, rp := range replicas {
-				if _, ok := st.LiveNodes[rp]; ok {
+				if m.live[int(rp)] {
 					alive = true
 				}
 			}
@@ -327,7 +381,7 @@ func (m *machine) oracle(c *core.Ctx, after string) {
 				c.Fail("online-iff-alive-replica", fmt.Sprintf("after %q: %s shard %d state=%d but alive-replica=%v", after, name, id, s.State, alive))
 			}
 			if online {
-				_, leaderAlive := st.LiveNodes[s.Leader]
+				leaderAlive := s.Leader >= 0 && m.live[int(s.Leader)]
 				isReplica := false
 				for _, rp := range replicas {
 					if rp == s.Leader {
@@ -352,94 +406,335 @@ func (m *machine) event(c *core.Ctx, op string, ev *discovery.Event) {
 	m.oracle(c, op)
 }
 
+// evStep is one scheduled event of a state-machine case.
+type evStep struct {
+	// up | down | cfg | cfgq | deliver | deliverlast | dup | putfail | drop
+	kind string
+	// up/down: node id; cfg/cfgq: db, shards (create) or extra shards (grow), replica factor;
+	// drop/deliver/deliverlast/dup: db; putfail: which of the next assignment Puts fails (1 or 2)
+	a, b, c int
+}
+
+// scripts are fixed scenarios that run on every seed as the first cases.
+// 0-2: repeated start-up of a live node, failure of a node that is not live, failure of a leader
+// with / without a surviving replica, restart of the only replica, grow after churn, drop and
+// re-create — with prompt delivery of the assignment watch event ("cfg").
+// 3-5: the assignment watch lags ("cfgq" persists without delivering, "deliver" hands over the
+// oldest undelivered payload): the create's payload arriving after a grow and before the next grow
+// (three databases); a payload arriving after the database was dropped, before a re-create with
+// another replica factor on other nodes; a failed repository write during a grow followed by
+// node failure / start-up.
+var scripts = [][]evStep{
+	{{"up", 1, 0, 0}, {"up", 2, 0, 0}, {"up", 1, 0, 0}, {"down", 7, 0, 0}, {"cfg", 0, 4, 2}, {"up", 2, 0, 0},
+		{"down", 1, 0, 0}, {"down", 1, 0, 0}, {"down", 2, 0, 0}, {"up", 2, 0, 0}, {"up", 2, 0, 0}, {"up", 1, 0, 0},
+		{"cfg", 0, 3, 2}, {"down", 2, 0, 0}, {"drop", 0, 0, 0}, {"down", 1, 0, 0}, {"cfg", 0, 2, 1}, {"up", 1, 0, 0}, {"cfg", 0, 0, 1}},
+	{{"up", 0, 0, 0}, {"up", 3, 0, 0}, {"up", 5, 0, 0}, {"cfg", 1, 6, 2}, {"cfg", 2, 5, 1}, {"down", 3, 0, 0}, {"down", 0, 0, 0},
+		{"down", 5, 0, 0}, {"down", 5, 0, 0}, {"up", 4, 0, 0}, {"up", 3, 0, 0}, {"cfg", 1, 2, 3}, {"up", 0, 0, 0}, {"up", 5, 0, 0},
+		{"cfg", 1, 3, 3}, {"down", 0, 0, 0}, {"up", 0, 0, 0}, {"drop", 2, 0, 0}, {"drop", 2, 0, 0}, {"down", 3, 0, 0}},
+	{{"cfg", 0, 3, 1}, {"down", 0, 0, 0}, {"up", 0, 0, 0}, {"cfg", 0, 0, 1}, {"down", 0, 0, 0}, {"up", 1, 0, 0}, {"cfg", 0, 2, 1},
+		{"up", 0, 0, 0}, {"down", 1, 0, 0}, {"cfg", 1, 2, 3}, {"up", 1, 0, 0}, {"up", 2, 0, 0}, {"cfg", 1, 0, 3}, {"down", 1, 0, 0}},
+	{{"up", 0, 0, 0}, {"up", 1, 0, 0}, {"up", 2, 0, 0}, {"up", 3, 0, 0}, {"up", 4, 0, 0},
+		{"cfgq", 0, 4, 2}, {"cfgq", 1, 4, 2}, {"cfgq", 2, 4, 3}, {"cfgq", 0, 3, 0}, {"cfgq", 1, 3, 0}, {"cfgq", 2, 3, 0},
+		{"deliver", 0, 0, 0}, {"deliver", 1, 0, 0}, {"deliver", 2, 0, 0}, {"down", 4, 0, 0},
+		{"cfgq", 0, 3, 0}, {"cfgq", 1, 3, 0}, {"cfgq", 2, 3, 0}, {"deliver", 0, 0, 0}, {"deliver", 0, 0, 0}, {"deliver", 1, 0, 0},
+		{"up", 4, 0, 0}, {"deliver", 1, 0, 0}, {"deliver", 2, 0, 0}, {"deliver", 2, 0, 0}, {"dup", 0, 0, 0}, {"cfg", 0, 1, 0}},
+	{{"up", 1, 0, 0}, {"up", 2, 0, 0}, {"up", 3, 0, 0}, {"cfgq", 0, 3, 2}, {"drop", 0, 0, 0}, {"deliver", 0, 0, 0},
+		{"down", 1, 0, 0}, {"down", 2, 0, 0}, {"up", 4, 0, 0}, {"cfg", 0, 3, 1}, {"down", 3, 0, 0}, {"drop", 0, 0, 0},
+		{"cfg", 1, 2, 2}, {"cfgq", 1, 2, 0}, {"drop", 1, 0, 0}, {"deliver", 1, 0, 0}, {"up", 5, 0, 0}, {"cfg", 1, 6, 2},
+		{"drop", 1, 0, 0}, {"dup", 1, 0, 0}, {"drop", 1, 0, 0}, {"cfg", 1, 2, 1}},
+	{{"up", 1, 0, 0}, {"up", 2, 0, 0}, {"cfg", 0, 2, 1}, {"putfail", 1, 0, 0}, {"cfgq", 0, 2, 0}, {"down", 1, 0, 0}, {"up", 1, 0, 0},
+		{"up", 2, 0, 0}, {"deliver", 0, 0, 0}, {"cfg", 0, 1, 0}, {"putfail", 2, 0, 0}, {"cfg", 0, 3, 0}, {"up", 1, 0, 0},
+		{"putfail", 1, 0, 0}, {"cfg", 1, 3, 2}, {"up", 2, 0, 0}, {"cfg", 1, 0, 2}, {"putfail", 2, 0, 0}, {"cfg", 2, 2, 1}, {"up", 1, 0, 0}},
+}
+
 func machineCase(c *core.Ctx, r *rand.Rand) {
-	ctx, cancel := context.WithCancel(context.Background())
-	defer cancel()
-	repo := &memRepo{kv: map[string][]byte{}}
-	m := &machine{repo: repo, mgr: master.NewStateManager(ctx, repo, nil), live: map[int]bool{}, dbs: map[int]*models.Database{}}
-	defer m.mgr.Close()
-	c.Op("reset", "ok")
 	nNodes := 2 + r.Intn(5)
 	steps := 8 + r.Intn(25)
+	maxRF, maxShards, nDB := 3, 6, 3
 	if c.Tier == "thorough" {
 		steps = 10 + r.Intn(60)
+		if r.Intn(3) == 0 { // larger clusters
+			nNodes = 6 + r.Intn(10)
+			maxRF, maxShards = 5, 14
+		}
+	}
+	// watch mode of the case: prompt = every persisted assignment is delivered before the next
+	// event (the causal order); lagging = the assignment watch runs behind the config watch
+	lagging := r.Intn(2) == 0
+	if lagging {
+		c.Branch("case-lagging-watch")
+		nDB = 2
+	} else {
+		c.Branch("case-prompt-watch")
+	}
+	// the generator keeps its own picture of the live set only to bias choices (repeated start-up,
+	// failure of a dead node); the events themselves are unconstrained
+	live := map[int]bool{}
+	pick := func(wantLive bool) int {
+		var cand []int
+		for id := 0; id < nNodes; id++ {
+			if live[id] == wantLive {
+				cand = append(cand, id)
+			}
+		}
+		if len(cand) == 0 || r.Intn(4) == 0 {
+			return r.Intn(nNodes)
+		}
+		return cand[r.Intn(len(cand))]
+	}
+	var evs []evStep
+	pend := map[int]int{} // rough count of undelivered payloads per database (bias only)
+	if r.Intn(5) != 0 {   // mostly: a cluster that is (partly) up before the churn starts
+		for id := 0; id < nNodes; id++ {
+			if r.Intn(4) != 0 {
+				live[id] = true
+				evs = append(evs, evStep{"up", id, 0, 0})
+			}
+		}
 	}
 	for s := 0; s < steps; s++ {
 		k := r.Intn(10)
+		anyPending := false
+		for _, v := range pend {
+			anyPending = anyPending || v > 0
+		}
+		if lagging && r.Intn(4) == 0 && (anyPending || r.Intn(3) == 0) { // the lagging watch makes progress / repeats itself / a write fails
+			dd := r.Intn(nDB)
+			if pend[dd] == 0 && r.Intn(5) != 0 { // prefer a database that (probably) has an undelivered payload
+				for x := 0; x < nDB; x++ {
+					if pend[x] > 0 {
+						dd = x
+					}
+				}
+			}
+			switch q := r.Intn(10); {
+			case q < 6:
+				evs = append(evs, evStep{"deliver", dd, 0, 0})
+				if pend[dd] > 0 {
+					pend[dd]--
+				}
+			case q < 7:
+				evs = append(evs, evStep{"deliverlast", dd, 0, 0})
+				if pend[dd] > 0 {
+					pend[dd]--
+				}
+			case q < 8:
+				evs = append(evs, evStep{"dup", r.Intn(nDB), 0, 0})
+			default:
+				evs = append(evs, evStep{"putfail", 1 + r.Intn(2), 0, 0})
+			}
+			continue
+		}
 		switch {
-		case k < 3: // node up
-			id := r.Intn(nNodes)
+		case k < 3:
+			id := pick(r.Intn(4) == 0) // one in four: a node that is already live
+			live[id] = true
+			evs = append(evs, evStep{"up", id, 0, 0})
+		case k < 6:
+			id := pick(r.Intn(4) != 0) // one in four: a node that is not live
+			delete(live, id)
+			evs = append(evs, evStep{"down", id, 0, 0})
+		case k < 9:
+			kind, dd := "cfg", r.Intn(nDB)
+			if lagging && r.Intn(3) != 0 {
+				kind = "cfgq"
+				pend[dd]++
+			} else {
+				pend[dd] = 0
+			}
+			evs = append(evs, evStep{kind, dd, 1 + r.Intn(maxShards), 1 + r.Intn(maxRF)})
+		default:
+			evs = append(evs, evStep{"drop", r.Intn(nDB), 0, 0})
+		}
+	}
+	machineRun(c, r, evs)
+}
+
+// deliver hands one persisted assignment payload to the manager as a ShardAssignmentChanged event.
+func (m *machine) deliver(c *core.Ctx, d int, raw []byte) {
+	asg := &models.ShardAssignment{}
+	if err := json.Unmarshal(raw, asg); err != nil {
+		c.Fail("assignment-unmarshal", err.Error())
+		return
+	}
+	m.lastRaw[d] = raw
+	m.delivered[d] = asg
+	m.event(c, fmt.Sprintf("asg %d %s", d, showAsg(asg)), &discovery.Event{Type: discovery.ShardAssignmentChanged,
+		Key: constants.GetDatabaseAssignPath(dbName(d)), Value: raw})
+}
+
+// persisted reads the assignment of db d from the repository (nil if none).
+func (m *machine) persisted(d int) (*models.ShardAssignment, string) {
+	raw, ok := m.repo.kv[constants.GetDatabaseAssignPath(dbName(d))]
+	if !ok {
+		return nil, ""
+	}
+	asg := &models.ShardAssignment{}
+	if err := json.Unmarshal(raw, asg); err != nil {
+		return nil, string(raw)
+	}
+	return asg, string(raw)
+}
+
+// machineRun feeds the events into a fresh real stateManager (in-memory repo) one by one.
+// For "cfg"/"cfgq": an unknown db is created with b shards and replica factor c; a known db grows
+// by b%4 shards (0 = re-trigger of the unchanged assignment). "cfg" delivers the assignment watch
+// event(s) of the database at once, "cfgq" leaves the new payload undelivered.
+func machineRun(c *core.Ctx, _ *rand.Rand, evs []evStep) {
+	ctx, cancel := context.WithCancel(context.Background())
+	defer cancel()
+	repo := &memRepo{kv: map[string][]byte{}, asgPuts: map[string]int{}}
+	m := &machine{repo: repo, mgr: master.NewStateManager(ctx, repo, nil), live: map[int]bool{}, dbs: map[int]*models.Database{},
+		pending: map[int][][]byte{}, lastRaw: map[int][]byte{}, delivered: map[int]*models.ShardAssignment{}}
+	defer m.mgr.Close()
+	c.Op("reset", "ok")
+	for _, e := range evs {
+		switch e.kind {
+		case "up":
+			id := e.a
 			node := models.StatefulNode{ID: models.NodeID(id)}
 			node.HostIP = "10.0.0." + strconv.Itoa(id)
 			data, _ := json.Marshal(&node)
 			key := constants.GetStorageLiveNodePath(strconv.Itoa(id))
 			repo.kv[key] = data
+			if m.live[id] {
+				c.Branch("ev-up-already-live")
+			} else {
+				c.Branch("ev-up")
+			}
 			m.live[id] = true
-			c.Branch("ev-up")
 			m.event(c, fmt.Sprintf("up %d", id), &discovery.Event{Type: discovery.NodeStartup, Key: key, Value: data})
-		case k < 6: // node down
-			id := r.Intn(nNodes)
+		case "down":
+			id := e.a
 			key := constants.GetStorageLiveNodePath(strconv.Itoa(id))
 			delete(repo.kv, key)
+			switch {
+			case !m.live[id]:
+				c.Branch("ev-down-not-live")
+			case m.leads(id):
+				c.Branch("ev-down-leader")
+			default:
+				c.Branch("ev-down")
+			}
 			delete(m.live, id)
-			c.Branch("ev-down")
 			m.event(c, fmt.Sprintf("down %d", id), &discovery.Event{Type: discovery.NodeFailure, Key: key})
-		case k < 9: // create database / grow shards
-			d := r.Intn(3)
+		case "putfail":
+			repo.failAsgPut = e.a
+			c.Branch("ev-arm-put-fault")
+		case "cfg", "cfgq": // create database / grow shards
+			d := e.a
 			cfg, ok := m.dbs[d]
 			if !ok {
-				cfg = &models.Database{Name: dbName(d), NumOfShard: 1 + r.Intn(6), ReplicaFactor: 1 + r.Intn(3)}
+				cfg = &models.Database{Name: dbName(d), NumOfShard: e.b, ReplicaFactor: e.c}
 				c.Branch("ev-create-db")
 			} else {
-				cfg = &models.Database{Name: cfg.Name, NumOfShard: cfg.NumOfShard + r.Intn(4), ReplicaFactor: cfg.ReplicaFactor}
+				cfg = &models.Database{Name: cfg.Name, NumOfShard: cfg.NumOfShard + e.b%4, ReplicaFactor: cfg.ReplicaFactor}
 				c.Branch("ev-grow-db")
 			}
 			data, _ := json.Marshal(cfg)
 			asgKey := constants.GetDatabaseAssignPath(cfg.Name)
-			var before *models.ShardAssignment
-			if b, ok := repo.kv[asgKey]; ok {
-				before = &models.ShardAssignment{}
-				_ = json.Unmarshal(b, before)
-			}
-			oldRaw := string(repo.kv[asgKey])
-			delete(repo.kv, "verif-touched")
+			before, oldRaw := m.persisted(d)
+			putsBefore := repo.asgPuts[asgKey]
+			armed := repo.failAsgPut > 0
 			m.dbs[d] = cfg
 			liveNow := m.liveIDs()
 			m.event(c, fmt.Sprintf("dbcfg %d", d), &discovery.Event{Type: discovery.DatabaseConfigChanged,
 				Key: constants.GetDatabaseConfigPath(cfg.Name), Value: data})
-			// the etcd watch would now deliver the (re)written assignment
-			if raw, ok := repo.kv[asgKey]; ok {
-				asg := &models.ShardAssignment{}
-				if err := json.Unmarshal(raw, asg); err != nil {
-					c.Fail("assignment-unmarshal", err.Error())
-					continue
-				}
-				if string(raw) != oldRaw {
-					lo := 0
-					if before != nil {
-						lo = len(before.Shards)
-						for id, rp := range before.Shards {
-							if a2 := asg.Shards[id]; a2 == nil || showReplicas(a2.Replicas) != showReplicas(rp.Replicas) {
-								c.Fail("grow-moved-existing", fmt.Sprintf("db %d shard %d moved", d, id))
-							}
+			if armed && repo.failAsgPut == 0 {
+				c.Branch("ev-put-fault-hit")
+			}
+			repo.failAsgPut = 0 // the fault is for this config event only
+			after, newRaw := m.persisted(d)
+			if after == nil && newRaw != "" {
+				c.Fail("assignment-unmarshal", "persisted assignment of "+cfg.Name+" does not parse")
+				continue
+			}
+			// placement clauses of C18, evaluated on the PERSISTED assignment (the repository is what
+			// storage nodes and brokers read), whatever the manager holds in memory
+			if after != nil && newRaw != oldRaw {
+				lo := 0
+				if before != nil {
+					// growing the shard count keeps existing shards where they are
+					lo = len(before.Shards)
+					for id, rp := range before.Shards {
+						if a2 := after.Shards[id]; a2 == nil || showReplicas(a2.Replicas) != showReplicas(rp.Replicas) {
+							c.Fail("grow-moved-existing", fmt.Sprintf("dbcfg %d (%d shards): persisted shard %d was %v, now %v", d, cfg.NumOfShard, id, rp.Replicas, a2))
 						}
 					}
-					checkAssignment(c, fmt.Sprintf("dbcfg %d", d), asg, liveNow, cfg.ReplicaFactor, lo, len(asg.Shards))
-					c.NonTrivial()
+					c.Branch("ev-grow-assigned")
+				} else {
+					c.Branch("ev-create-assigned")
 				}
-				m.event(c, fmt.Sprintf("asg %d %s", d, showAsg(asg)), &discovery.Event{Type: discovery.ShardAssignmentChanged, Key: asgKey, Value: raw})
-			} else {
-				// creation failed (no live node / rf too large): forget the cfg on the harness side too? The
-				// manager keeps it in m.databases (it is set before the attempt), so keep it.
-				c.Branch("ev-create-failed")
+				// every new shard (all shards of a created database): rf distinct nodes alive now, round-robin
+				checkAssignment(c, fmt.Sprintf("dbcfg %d", d), after, liveNow, cfg.ReplicaFactor, lo, len(after.Shards))
+				// and the database has the configured number of shards, numbered from 0
+				if len(after.Shards) != cfg.NumOfShard {
+					c.Fail("assign-shard-count", fmt.Sprintf("dbcfg %d: %d shards configured, %d persisted", d, cfg.NumOfShard, len(after.Shards)))
+				}
+				for id := range after.Shards {
+					if int(id) < 0 || int(id) >= len(after.Shards) {
+						c.Fail("assign-shard-count", fmt.Sprintf("dbcfg %d: shard id %d outside 0..%d", d, id, len(after.Shards)-1))
+					}
+				}
+				c.NonTrivial()
 			}
-		default: // drop database
-			d := r.Intn(3)
+			// every successful Put makes the etcd watch emit the payload (one is kept per config event)
+			if repo.asgPuts[asgKey] > putsBefore {
+				m.pending[d] = append(m.pending[d], []byte(newRaw))
+			} else if after == nil {
+				// creation failed (no live node / rf too large / write failure): the manager keeps the
+				// cfg in m.databases (it is set before the attempt), so the harness keeps it too.
+				c.Branch("ev-create-failed")
+			} else {
+				c.Branch("ev-cfg-nothing-persisted")
+			}
+			if e.kind == "cfg" { // prompt: the watch catches up with everything persisted for this database
+				for len(m.pending[d]) > 0 {
+					raw := m.pending[d][0]
+					m.pending[d] = m.pending[d][1:]
+					m.deliver(c, d, raw)
+				}
+			} else if len(m.pending[d]) > 0 {
+				c.Branch("ev-asg-left-pending")
+			}
+		case "deliver", "deliverlast":
+			d := e.a
+			q := m.pending[d]
+			if len(q) == 0 {
+				c.Branch("ev-deliver-nothing-pending")
+				continue
+			}
+			var raw []byte
+			if e.kind == "deliver" || len(q) == 1 {
+				raw, m.pending[d] = q[0], q[1:]
+			} else {
+				raw, m.pending[d] = q[len(q)-1], q[:len(q)-1]
+				c.Branch("ev-asg-out-of-order")
+			}
+			switch _, known := m.dbs[d]; {
+			case !known:
+				c.Branch("ev-asg-late-after-drop")
+			case string(raw) != string(repo.kv[constants.GetDatabaseAssignPath(dbName(d))]):
+				c.Branch("ev-asg-late-stale")
+			default:
+				c.Branch("ev-asg-late-current")
+			}
+			m.deliver(c, d, raw)
+		case "dup":
+			d := e.a
+			if raw, ok := m.lastRaw[d]; ok {
+				c.Branch("ev-asg-duplicate")
+				m.deliver(c, d, raw)
+			}
+		case "drop":
+			d := e.a
 			name := dbName(d)
 			delete(repo.kv, constants.GetDatabaseAssignPath(name))
 			_, known := m.dbs[d]
 			delete(m.dbs, d)
 			if known {
+				// onDatabaseCfgDelete forgets the database's assignment and shard states
+				delete(m.delivered, d)
 				c.Branch("ev-drop-db")
 			} else {
 				c.Branch("ev-drop-unknown-db")
@@ -447,6 +742,18 @@ func machineCase(c *core.Ctx, r *rand.Rand) {
 			m.event(c, fmt.Sprintf("dropdb %d", d), &discovery.Event{Type: discovery.DatabaseConfigDeletion, Key: constants.GetDatabaseConfigPath(name)})
 		}
 	}
+}
+
+// leads reports whether node id currently leads at least one shard.
+func (m *machine) leads(id int) bool {
+	for _, ss := range m.mgr.GetStorageState().ShardStates {
+		for _, s := range ss {
+			if s.State == models.OnlineShard && int(s.Leader) == id {
+				return true
+			}
+		}
+	}
+	return false
 }
 
 func (m *machine) liveIDs() []models.NodeID {
